@@ -282,15 +282,24 @@ def _alarm(signum, frame):
     raise Timeout()
 
 
+_TIMEOUTS = 0
+
+
 def call_impl(fn, *a, timeout=20, **kw):
     """run one implementation call; map the outcome to ('ok', value) | ('ValueError', msg) |
     ('IndexError', msg) | ('timeout', '') | ('other:<type>', msg)"""
+    global _TIMEOUTS
+    # after a few calls that ran into the limit, further calls in this worker get one second: a change that makes
+    # a kernel loop forever must not stall the whole check
+    if _TIMEOUTS >= 3:
+        timeout = 1
     old = signal.signal(signal.SIGALRM, _alarm)
     signal.alarm(timeout)
     try:
         v = fn(*a, **kw)
         return ("ok", v)
     except Timeout:
+        _TIMEOUTS += 1
         return ("timeout", "")
     except ValueError as e:
         return ("ValueError", str(e)[:200])
